@@ -10,7 +10,7 @@ Sources: `src/api/roa.rs` (`RoaPayload::{effective_max_length, max_length_valid,
 nr_of_specific_prefixes, set_explicit_max_length}`, `Ipv4Prefix::from_str`,
 `Ipv4Prefix::resize`), `src/server/bgp/riswhois.rs` (`covers`), `src/server/ca/roa.rs`
 (`RoaAggregateKey::from_str`), `src/api/bgpsec.rs` (`BgpSecAsnKey::from_str`),
-`src/server/bgp/analyser.rs` (`authorizes_excess`).
+`src/server/bgp/analyser.rs` (`authorizes_excess`), `src/commons/util/mod.rs` (`seems_global_uri`).
 
 Import-free so that the driver can be compiled as a `lean_exe`.
 -/
@@ -159,6 +159,114 @@ def roaAggregateKeyFromStr (s : List Char) : Option (Option (Nat × Option Nat))
             | none => some none
             | some grp => some (some (asn, some grp))
           | _ => some none
+
+/-! ### `seems_global_uri` (commons/util/mod.rs:20-33)
+
+```rust
+fn seems_global_uri(auth: &str) -> bool {
+    if auth.to_lowercase() == "localhost" || auth.starts_with('[') || IpAddr::from_str(auth).is_ok() {
+        false
+    } else if let Some(i) = auth.rfind(':') {
+        let auth = &auth[0..i];
+        IpAddr::from_str(auth).is_err()
+    } else { true }
+}
+```
+
+Reached with the authority of every SIA URI of a client-supplied CSR (`CsrInfo::global_uris`,
+from `CertAuth::append_child_certify`: RFC 6492 issue requests and the child import API).
+The one slice is modelled with `sliceTo` (`none` = panic); `IpAddr::from_str` is the parser of
+`core::net::parser` re-stated on characters (it works on bytes; a non-ASCII character is never a
+digit, `.` or `:` on either side). -/
+
+/-- `&s[..i]` -/
+def sliceTo : List Char → Nat → Option (List Char)
+  | _, 0 => some []
+  | [], _ + 1 => none
+  | c :: rest, i + 1 =>
+    if utf8Size c ≤ i + 1 then (sliceTo rest (i + 1 - utf8Size c)).map (c :: ·) else none
+
+/-- `str::rfind(ch)`: byte offset of the last occurrence. -/
+def rfindChar (ch : Char) : List Char → Option Nat
+  | [] => none
+  | c :: rest =>
+    match rfindChar ch rest with
+    | some i => some (utf8Size c + i)
+    | none => if c == ch then some 0 else none
+
+def isHexDigit (c : Char) : Bool :=
+  isDigit c || (c.toNat ≥ 97 && c.toNat ≤ 102) || (c.toNat ≥ 65 && c.toNat ≤ 70)
+
+def expectChar (ch : Char) : List Char → Option (List Char)
+  | c :: rest => if c == ch then some rest else none
+  | [] => none
+
+/-- `Parser::read_number(10, Some(3), false)` into a `u8`: 1-3 digits, no leading zero unless
+the number is `0`, value at most 255 (`checked_mul`/`checked_add`).  Returns the rest. -/
+def readOctet (s : List Char) : Option (List Char) :=
+  let ds := s.takeWhile isDigit
+  if ds.isEmpty || ds.length > 3 then none
+  else if ds.head? == some '0' && ds.length > 1 then none
+  else if ds.foldl (fun acc c => acc * 10 + (c.toNat - 48)) 0 > 255 then none
+  else some (s.dropWhile isDigit)
+
+/-- `Parser::read_number(16, Some(4), true)` into a `u16`: 1-4 hex digits. -/
+def readHex16 (s : List Char) : Option (List Char) :=
+  let ds := s.takeWhile isHexDigit
+  if ds.isEmpty || ds.length > 4 then none else some (s.dropWhile isHexDigit)
+
+/-- `Parser::read_separator(sep, index, inner)` -/
+def readSep (sep : Char) (index : Nat) (inner : List Char → Option (List Char))
+    (s : List Char) : Option (List Char) :=
+  if index > 0 then (expectChar sep s).bind inner else inner s
+
+/-- `Parser::read_ipv4_addr` -/
+def readIpv4 (s : List Char) : Option (List Char) := do
+  let s ← readSep '.' 0 readOctet s
+  let s ← readSep '.' 1 readOctet s
+  let s ← readSep '.' 2 readOctet s
+  readSep '.' 3 readOctet s
+
+/-- `read_groups` inside `Parser::read_ipv6_addr`: `limit` slots, `fuel` of them left, at
+index `i`.  Returns (groups read, an embedded IPv4 address was read, rest). -/
+def readGroups (limit : Nat) : Nat → Nat → List Char → Nat × Bool × List Char
+  | 0, i, s => (i, false, s)
+  | fuel + 1, i, s =>
+    match (if i + 1 < limit then readSep ':' i readIpv4 s else none) with
+    | some rest => (i + 2, true, rest)
+    | none =>
+      match readSep ':' i readHex16 s with
+      | some rest => readGroups limit fuel (i + 1) rest
+      | none => (i, false, s)
+
+/-- `Parser::read_ipv6_addr` -/
+def readIpv6 (s : List Char) : Option (List Char) :=
+  match readGroups 8 8 0 s with
+  | (hs, h4, r1) =>
+    if hs == 8 then some r1
+    else if h4 then none
+    else
+      match r1 with
+      | ':' :: ':' :: r2 =>
+        let limit := 8 - (hs + 1)
+        some (readGroups limit limit 0 r2).2.2
+      | _ => none
+
+/-- `IpAddr::from_str(s).is_ok()`: IPv4, else IPv6, and all input consumed. -/
+def ipAddrOk (s : List Char) : Bool :=
+  match readIpv4 s with
+  | some rest => rest.isEmpty
+  | none => readIpv6 s == some []
+
+/-- `seems_global_uri`.  `none` = the slice panics.  (`str::to_lowercase` is Unicode-aware, but
+no character outside ASCII lower-cases to a letter of "localhost", so the ASCII map is exact.) -/
+def seemsGlobalUri (auth : List Char) : Option Bool :=
+  if auth.map Char.toLower == "localhost".toList || auth.head? == some '[' || ipAddrOk auth then
+    some false
+  else
+    match rfindChar ':' auth with
+    | some i => (sliceTo auth i).map fun host => !ipAddrOk host
+    | none => some true
 
 /-! ### counters, versions, time, paging
 
